@@ -84,6 +84,8 @@ class Log:
         self.mb = []       # mass-balance calls: dict(inputs..., outputs...)
         self.upd = []      # PSD update calls
         self.steps = []    # observer snapshots after every accepted step
+        self.post = []     # postProcess calls: time and the state handed over by the solver (before _processX)
+        self.corr = []     # _correctdXdt calls (the last one before a postProcess is the accepted update)
         self.in_post = False
 
 
@@ -125,12 +127,32 @@ def instrument(model, log=None, snapshot_psd=True):
                             psd=model.PBM[p].PSD.copy(), size=model.PBM[p].PSDsize.copy()) for p in range(P)]))
         return r
 
+    orig_corr = model._correctdXdt
+
+    def corr(dt, x, dXdt, Y, growth):
+        rec = dict(dt=float(dt), x=[np.array(x[p], dtype=float).copy() for p in range(P)],
+                   growth=[np.array(growth[p], dtype=float).copy() for p in range(P)],
+                   nucRate=np.array(Y.nucRate[0], dtype=float).copy(), Rnuc=np.array(Y.Rnuc[0], dtype=float).copy(),
+                   bounds=[model.PBM[p].PSDbounds.copy() for p in range(P)])
+        r = orig_corr(dt, x, dXdt, Y, growth)
+        rec['dXdt'] = [np.array(dXdt[p], dtype=float).copy() for p in range(P)]
+        rec['netFlux'] = [model.PBM[p]._netFlux.copy() for p in range(P)]
+        log.corr.append(rec)
+        return r
+
     def post(t, x):
         log.in_post = True
+        log.post.append(dict(t=float(t), x=[np.array(x[p], dtype=float).copy() for p in range(P)],
+                             corr=log.corr[-1] if log.corr else None,
+                             RdfIdx=[int(model.RdrivingForceIndex[p]) for p in range(P)],
+                             minRadius=float(model.constraints.minRadius)))
+        log.corr = []
         try:
             return orig_post(t, x)
         finally:
             log.in_post = False
+
+    model._correctdXdt = corr
 
     model._calcMassBalance = mb
     model._updateParticleSizeDistribution = upd
